@@ -238,7 +238,7 @@ func checkC18(c *Ctx) {
 		ok := reachableAvoiding(f.Blocks[0], 0, isRetInstr, func(x ssa.Instruction) bool { return isCallTo(u, x, setLine) }) == nil
 		R.check(ok, "C18.setline", "pkg/syntax/zh.ParseBasicExpr", u.pos(f.Pos()), "every basic expression gets the line of its first token", "a basic expression can be returned without a line")
 	}
-	R.min("C18.setline", 13)
+	R.min("C18.setline", 10)
 	R.count("line_carrying_nodes_checked", nNodes)
 
 	// ---- C18.lines
